@@ -5,6 +5,7 @@ import DrummerVerif.Lemmas.Stamp
 import DrummerVerif.Lemmas.C02Events
 import DrummerVerif.Lemmas.Applied
 import DrummerVerif.Lemmas.C01M
+import DrummerVerif.Lemmas.C01R
 /-!
 # C01 — self-healing: the control loop restores every shard after faults stop (PARTIAL: safety invariants and per-round progress lemmas; the convergence bound is decided by the correspondence run, see DESIGN.md)
 
@@ -277,6 +278,63 @@ theorem one_round_heals_a_crashed_member :
                                                         m ∈ c.replicas →
                                                           m.replicaId = r.instantiateReplicaId → m.tick = l2.db.tick :=
   @_root_.Drummer.restore_round_heals_member
+
+
+/-! ### from the scheduler's classification to the running replica: scheduler link, mailbox refinement and fleet links
+    in one statement -/
+
+theorem detected_member_is_restored_by_one_round :
+    ∀ (l : Loop),
+      Loop.AR l →
+        UniqueShards l.db.image →
+          ∀ (cx : Ctx) (draws rest : List Nat) (rs : List Request),
+            maintain cx draws = SRes.ok rs rest →
+              ∀ (db' : DB) (n : Nat),
+                DB.applyRequests l.db rs = Outcome.ok (db', n) →
+                  ∀ (cr : ShardRepair),
+                    cr ∈ cx.repairs →
+                      ShardRepair.restoreNow cx cr = true ∨
+                          ShardRepair.needToBeRestored cr = false ∧ List.contains (doneShards cx) cr.shard.shardId = false →
+                        ∀ (m : Replica),
+                          m ∈ restorable cx cr →
+                            ∀ (d : ShardDef),
+                              Ctx.def? cx cr.shard.shardId = some d →
+                                ∀ (h : Host),
+                                  Loop.host? l m.address = some h →
+                                    Host.run? h cr.shard.shardId = none →
+                                      ∀ (ap : Int),
+                                        Host.dataGet h cr.shard.shardId m.replicaId = some ap →
+                                          (∀ (x : Request),
+                                              x ∈ h.queue ++ forAddr rs m.address →
+                                                x.shardId = cr.shard.shardId →
+                                                  x = createReq m cr.shard d.appName false true ∨
+                                                    x.type ≠ ReqType.create ∧
+                                                      ¬(x.type = ReqType.kill ∧ List.head? x.members = some m.replicaId)) →
+                                            ∀ (l2 : Loop) (k : Nat),
+                                              Loop.report
+                                                    { db := db', hosts := l.hosts, groups := l.groups, nextVer := l.nextVer,
+                                                      regions := l.regions }
+                                                    m.address false =
+                                                  Outcome.ok (l2, k) →
+                                                ∀ (lost : Bool) (l4 : Loop) (k4 : Nat),
+                                                  Loop.report (Loop.execute l2 m.address) m.address lost =
+                                                      Outcome.ok (l4, k4) →
+                                                    (∃ h3,
+                                                        Loop.host? (Loop.execute l2 m.address) m.address = some h3 ∧
+                                                          Option.map (fun x => x.id) (Host.run? h3 cr.shard.shardId) =
+                                                            some m.replicaId) ∧
+                                                      ∀ (c : Shard),
+                                                        c ∈ l4.db.image.shards →
+                                                          c.shardId = cr.shard.shardId →
+                                                            ∀ (x : Replica),
+                                                              x ∈ c.replicas →
+                                                                x.replicaId = m.replicaId → x.tick = l2.db.tick :=
+  @_root_.Drummer.detected_member_is_restored_by_one_round
+
+theorem round_output_contains_its_restore_phase :
+    ∀ (cx : Ctx) (draws rest : List Nat) (all rs : List Request),
+      maintain cx draws = SRes.ok all rest → restore cx = Outcome.ok rs → ∀ (r : Request), r ∈ rs → r ∈ all :=
+  @_root_.Drummer.maintain_contains_restore
 
 
 end C01
